@@ -27,6 +27,7 @@
 
 from __future__ import division
 import copy
+from array import array
 import fnmatch
 import re
 
@@ -212,9 +213,12 @@ class MultiTerm(qcore.Query):
         if not qs:
             return matching.NullMatcher()
 
+        needs_current = context.needs_current if context else False
         if len(qs) == 1:
             # If there's only one term, just use it
             m = qs[0].matcher(searcher, context)
+            if self.boost != 1.0 and not constantscore:
+                m = matching.WrappingMatcher(m, boost=self.boost)
         else:
             if constantscore:
                 # To tell the sub-query that score doesn't matter, set weighting
@@ -226,6 +230,16 @@ class MultiTerm(qcore.Query):
                     context = SearchContext(weighting=None)
             # Or the terms together
             m = Or(qs, boost=self.boost).matcher(searcher, context)
+
+        if constantscore and not isinstance(m, matching.NullMatcherClass):
+            # Every matching document gets the same score (this query's boost)
+            # no matter how many terms the query expanded to or which matcher
+            # implementation the Or picked (same scheme as ConstantScoreQuery)
+            if needs_current:
+                m = matching.ConstantScoreWrapperMatcher(m, self.boost)
+            else:
+                ids = array("I", m.all_ids())
+                m = matching.ListMatcher(ids, all_weights=self.boost)
         return m
 
 
